@@ -43,10 +43,36 @@ func asTemplate(template string) callMigrator {
 	}
 }
 
-// migrates a function call by joining its parameters with the given delimiter
-func asJoin(delimiter string) callMigrator {
+// migrates a function call using a template in which the parameters become operands of operators which
+// require the given precedences
+func asOperatorTemplate(template string, precedences ...int) callMigrator {
+	migrator := asTemplate(template)
+
 	return func(funcName string, params []string) (string, error) {
-		return strings.Join(params, delimiter), nil
+		operands := make([]string, len(params))
+		for i := range params {
+			if i < len(precedences) {
+				operands[i] = asOperand(params[i], precedences[i])
+			} else {
+				operands[i] = params[i]
+			}
+		}
+		return migrator(funcName, operands)
+	}
+}
+
+// migrates a function call by joining its parameters with the given (left associative) operator
+func asJoin(delimiter string, precedence int) callMigrator {
+	return func(funcName string, params []string) (string, error) {
+		operands := make([]string, len(params))
+		for i := range params {
+			if i == 0 {
+				operands[i] = asOperand(params[i], precedence)
+			} else {
+				operands[i] = asOperand(params[i], precedence+1)
+			}
+		}
+		return strings.Join(operands, delimiter), nil
 	}
 }
 
@@ -93,7 +119,7 @@ func paramDecremented() paramMigrator {
 		}
 
 		// if not return a decrementing expression
-		return fmt.Sprintf("%s - 1", param)
+		return fmt.Sprintf("%s - 1", asOperand(param, precAddition))
 	}
 }
 
@@ -114,7 +140,7 @@ var callMigrators = map[string]callMigrator{
 	"char":              asIs(),
 	"clean":             asIs(),
 	"code":              asIs(),
-	"concatenate":       asJoin(` & `),
+	"concatenate":       asJoin(` & `, precConcatenation),
 	"date":              asRename(`date_from_parts`),
 	"datedif":           asRename(`datetime_diff`),
 	"datevalue":         asRename(`date`),
@@ -122,7 +148,7 @@ var callMigrators = map[string]callMigrator{
 	"days":              asTemplate(`datetime_diff(%[2]s, %[1]s, "D")`),
 	"edate":             asTemplate(`datetime_add(%s, %s, "M")`),
 	"epoch":             asIs(),
-	"exp":               asTemplate(`2.718281828459045 ^ %s`),
+	"exp":               asOperatorTemplate(`2.718281828459045 ^ %s`, precExponent+1),
 	"false":             asTemplate(`false`), // becomes just a keyword
 	"field":             asParamMigrators(`field`, paramAsIs(), paramDecremented(), paramAsIs()),
 	"first_word":        asTemplate(`word(%s, 0)`),
@@ -143,7 +169,7 @@ var callMigrators = map[string]callMigrator{
 	"now":               asIs(),
 	"or":                asIs(),
 	"percent":           asIs(),
-	"power":             asTemplate(`%s ^ %s`),
+	"power":             asOperatorTemplate(`%s ^ %s`, precExponent, precExponent+1),
 	"proper":            asRename(`title`),
 	"rand":              asIs(),
 	"randbetween":       asRename(`rand_between`),
@@ -151,13 +177,13 @@ var callMigrators = map[string]callMigrator{
 	"regex_group":       asRename(`regex_match`),
 	"remove_first_word": asIs(),
 	"rept":              asRename(`repeat`),
-	"right":             asTemplate(`text_slice(%[1]s, -%[2]s)`),
+	"right":             asOperatorTemplate(`text_slice(%[1]s, -%[2]s)`, 0, precNegation),
 	"round":             asIs(),
 	"rounddown":         asRename(`round_down`),
 	"roundup":           asRename(`round_up`),
 	"second":            asTemplate(`format_datetime(%s, "s")`),
 	"substitute":        asRename(`replace`),
-	"sum":               asJoin(` + `),
+	"sum":               asJoin(` + `, precAddition),
 	"time":              asTemplate(`time_from_parts(%s, %s, %s)`),
 	"timevalue":         asTemplate(`time(%s)`),
 	"today":             asIs(),
